@@ -56,6 +56,7 @@ def map_scenario(sc):
     extra_c = [100]
     pump_closed = set(); pump_done = set(); pubclose_seen = set()
     pump_holds = {}; delivered_early = set()
+    rh_ids = []; g2r = {}
     # a NEGATIVE observation (the poll of routersCloseCh saw it open) is stamped after the fact and can be overtaken by
     # the close and its observers: its model step is placed as early as the log allows = right after the same goroutine's
     # preceding stamp (ctx_done)
@@ -174,8 +175,15 @@ def map_scenario(sc):
             lab('LHc %d' % h)
         elif p == 'router.handler.handleclose.stop':
             lab('LHc %d' % hno(k[0]))
+        elif p == 'router.life.close.clocked':
+            lab('LClose %d' % closer_of(e))          # closedLock taken
         elif p == 'router.close.locked':
-            lab('LClose %d' % closer_of(e))
+            lab('LClose %d' % closer_of(e))          # handlersLock taken
+        elif p == 'router.life.rh.locked':
+            r = len(rh_ids); rh_ids.append(r); g2r[e['g']] = r
+            lab('LRhCall %d' % r); lab('LRh %d' % r)
+        elif p == 'router.life.rh.unlock':
+            if e['g'] in g2r: lab('LRh %d' % g2r.pop(e['g']))
         elif p == 'router.close.already_closed':
             lab('LClose %d' % closer_of(e), 'OClosed true')
         elif p == 'router.close.signal':
@@ -199,14 +207,26 @@ def map_scenario(sc):
     m.labels = L; m.hist = H
     return m
 
+def model_handlers(sc):
+    """(started handlers, never-started handlers, honour flags): a handler added to the running router counts as started
+    when RunHandlers got to it before Close did (its goroutines are then merely scheduled late), else as never started"""
+    hon = [h['honour'] for h in sc['handlers']]
+    un = sc.get('unstarted', 0)
+    if sc.get('late_handler'):
+        if sc.get('late_started'): hon = hon + [True]
+        else: un += 1
+    return len(hon), un, hon
+
 def r_case_term(sc, mp):
-    hon = C.coq_list([C.coq_bool(h['honour']) for h in sc['handlers']])
-    return '(RC %d %d %s %s %s %s %s %s)' % (len(sc['handlers']), sc.get('unstarted', 0), hon, C.coq_bool(FIX5), C.coq_bool(FIX6), C.coq_bool(FIX12), C.coq_bool(FIX16),
+    n, un, honl = model_handlers(sc)
+    hon = C.coq_list([C.coq_bool(b) for b in honl])
+    return '(RC %d %d %s %s %s %s %s %s)' % (n, un, hon, C.coq_bool(FIX5), C.coq_bool(FIX6), C.coq_bool(FIX12), C.coq_bool(FIX16),
                                         C.coq_list(['(%s, %s)' % lo for lo in mp.labels]))
 
 def m_case_term(sc, mp):
-    hp = C.coq_list([C.coq_bool(not h.get('nopub')) for h in sc['handlers']])
-    return '(MC %d %s %s)' % (len(sc['handlers']), hp, C.coq_list(['(%s)' % t for t, _ in mp.hist]))
+    n, un, honl = model_handlers(sc)
+    hp = C.coq_list([C.coq_bool(not h.get('nopub')) for h in sc['handlers']] + [C.coq_bool(False)] * (n - len(sc['handlers'])))
+    return '(MC %d %s %s)' % (n, hp, C.coq_list(['(%s)' % t for t, _ in mp.hist]))
 
 VNAME = {1: 'a handler started after a Close call had returned nil',
          2: 'Close returned nil while a handler invocation was still in progress (or its message unsettled)',
@@ -248,8 +268,7 @@ TRUSTED_BASE = [
     'modelled, not verified: Go runtime semantics of sync.Mutex, sync.WaitGroup, channels/select (any ready case), context cancellation, time.After (may fire whenever the closer waits); '
     'Router/Close.v is hand-written from message/router.go (Close, waitForHandlers, Run tail, the RunHandlers goroutine + handler.run, handleClose, handleMessage), '
     'message/decorator.go (pump + Close) and pubsub/sync/waitgroup.go (folded into the closer\'s select) and tied to them by schedule replay of the stamped hook log',
-    'subscriber contract of the model: the channel closes after Close() was called or (ctx-honouring subscribers) after the Subscribe context ended; whether and when the subscriber\'s Close() RETURNS is an environment choice (it may block for ever); handlersLock is folded into closedLock '
-    '(AddHandler/RunHandlers/Stop concurrent with Close are outside the model: C10)',
+    'subscriber contract of the model: the channel closes after Close() was called or (ctx-honouring subscribers) after the Subscribe context ended; whether and when the subscriber\'s Close() RETURNS is an environment choice (it may block for ever); both locks of Close are modelled and RunHandlers calls compete for handlersLock; what RunHandlers starts and Stop concurrent with Close are outside the model (C10)',
     'the stamp discipline (acquire: stamp after; release: stamp before; close(closingInProgressCh) placed as late as the log allows; pump steps without a hook inserted as late as possible) and the Python mapper checks/c06.py',
     'Router/CloseMonitor.v mon_run judges the implementation history; it is PROVED to accept every API trace of the repaired model (C06_acceptor_accepts_model) and to reject the D5/D12 witness traces; the mapping of hook stamps to API events is trusted',
 ]
@@ -281,6 +300,7 @@ def classify(res, scs, mapped, reps, mons):
         if sc['cancel']: res.count('with context cancel')
         if sc['second_close']: res.count('with second Close')
         if sc.get('unstarted'): res.count('with a handler added but never started')
+        if sc.get('late_handler'): res.count('RunHandlers concurrent with Close (late handler %s)' % ('started' if sc.get('late_started') else 'not started'))
         res.count('hook events', len(sc['events'])); res.count('model labels replayed', len(mp.labels)); res.count('api events', len(mp.hist))
         res.count('Close calls', len(sc['calls'])); res.count('Close calls returning an error', sum(1 for c in sc['calls'] if c['err']))
         parked = sum(r['parked'] for r in sc['rules']); res.count('goroutines parked by a rule', parked)
@@ -302,7 +322,7 @@ def classify(res, scs, mapped, reps, mons):
         if sc.get('w1_stuck'):
             res.violations.append(dict(signature='C06/close-timeout-handlersWg-never-zero(D16)', what='Close returned a timeout error and its wait for the handler loops never ends although every handler loop has ended: handlersWg still counts a handler that was added but never started', case=readable(sc, mp)))
         for h in sc.get('hung') or []:
-            res.violations.append(dict(signature='C06/close-hangs-beyond-CloseTimeout' if h.startswith('Close hangs') else 'C06/never-returns', what=h, case=readable(sc, mp)))
+            res.violations.append(dict(signature='C06/close-hangs-beyond-CloseTimeout' if h.startswith('Close hangs') else ('C06/runhandlers-hangs' if h.startswith('RunHandlers hangs') else 'C06/never-returns'), what=h, case=readable(sc, mp)))
         seen = set()
         for i, c in mo:
             if c in seen: continue
